@@ -21,6 +21,12 @@ How it reads (semantically, not by spelling; helpers in `astutil_G4.py`; nothing
 * The post-processing functions: constants are evaluated (`FnEnv.const`: arithmetic, hoisted locals, class
   attributes), the tests that force a prefix on sp/zr are read through loops over constant tables, and variables
   are identified by the dictionary key they were read from, not by their name.
+* Helper methods: before a post-processing function is read, calls of private / static helper methods of the
+  class are replaced by the helper's statements (`astutil_G5.inline_helpers`: arguments substituted, locals renamed
+  apart, guard clauses turned into if/else, the returned value bound to a local; two levels deep), so "extract
+  method" (`self._force_x_prefix_for_alias(base, "sp")`, `self._copy_with_index(reg, index)`) reads like the
+  inline code.  If the function still has not the expected shape, the public methods it calls are substituted too
+  and the reading is tried once more (`_with_helpers`).
 * `parse_file`: loop or comprehension (`astutil_G4.read_parse_file`).
 
 Still insisted on (fails loudly otherwise): the six register alternatives in their order, the shapes of the two
